@@ -8,9 +8,10 @@ LOW, HIGH = 14, 16
 
 def global_expire(v, tier, seed, scen=None):
     if scen is None:
-        r = run_tlc("Expire", "Expire_mc.cfg", workers=8, timeout=1800)
+        cfg = "Expire_mcq.cfg" if tier == "quick" else "Expire_mc.cfg"
+        r = run_tlc("Expire", cfg, workers=8, timeout=3000)
         require_ok(r, "Expire model checking")
-        v.add_tlc("Expire_mc.cfg", r)
+        v.add_tlc(cfg, r)
         # the code as shipped: TLC must regenerate the crash
         r = run_tlc("Expire", "Expire_shipped.cfg", workers=2, timeout=600)
         if r.violation != "NoCrash":
